@@ -1,4 +1,4 @@
-//! harness <casefile> [--timeout-ms N] | harness --selftest | harness --mutcb
+//! harness <casefile> [--timeout-ms N] | harness --selftest | harness --mutcb | harness --shifty
 mod alloc;
 mod classes;
 mod elem;
@@ -89,6 +89,7 @@ fn main() {
     match args[i].as_str() {
       "--selftest" => std::process::exit(selftest::run()),
       "--mutcb" => std::process::exit(mutcb::run()),
+      "--shifty" => std::process::exit(mutcb::run_shifty()),
       "--timeout-ms" => {
         i += 1;
         timeout_ms = args.get(i).and_then(|s| s.parse().ok()).unwrap_or(5000);
